@@ -149,7 +149,7 @@ def value_of(spec, var, idx_by_dim):
     flat = flat_canonical(spec, var, idx_by_dim)
     if flat in _nan_set(var):
         return None
-    return 1000 * (var_number(spec, var) + 1) + flat
+    return 1000 * (var_number(spec, var) + 1) + flat + spec.get("code_offset", 0)
 
 
 _nan_cache = {}
